@@ -22,8 +22,8 @@ GUARD = "LIBPHYSICA_VERIF"
 FLAVOURS = {
     # name: (compiler, lib std, flags, hooks on)
     "asan": ("g++", "-std=c++14",
-             "-O1 -g -fno-omit-frame-pointer -fsanitize=address,undefined -fno-sanitize-recover=all "
-             "-D_GLIBCXX_SANITIZE_VECTOR", True),
+             "-O1 -g -fno-omit-frame-pointer -fsanitize=address,undefined,float-cast-overflow -fno-sanitize-recover=all "
+             "-D_GLIBCXX_SANITIZE_VECTOR" + (" " + os.environ["VERIF_ASAN_EXTRA"] if os.environ.get("VERIF_ASAN_EXTRA") else ""), True),
     "rel": ("g++", "-std=c++14", "-O2 -g", True),
     "cfg-gxx-O0": ("g++", "-std=c++14", "-O0", False),
     "cfg-gxx-O2": ("g++", "-std=c++14", "-O2", False),
